@@ -429,21 +429,26 @@ SEL_RULES = ENUMS + [
     Method("unlock", "ulock_unlock(&{recv})"),
     Sub(r"\(([^()]+)\)\s*%\s*(\w+)", r"vx_mod(\1, \2)", None),
     Sub(r"\b(?:states_|pu_mtxs_)\.size\(\)", "self->n", None),
-    Sub(r"\bstates_\[([^\]]+)\]\s*" + CMP, r"atomic_load(vx_state(self, \1)) \2", None),      # implicit conversion = load
-    Sub(r"\bstates_\[([^\]]+)\]", r"(*vx_state(self, \1))", None),
-    Sub(r"\bpu_mtxs_\[([^\]]+)\]", r"(*vx_pu_mtx(self, \1))", None),
+    # the tolerance bookkeeping of the non-fallback search (specs/C19/state.c): round start, comparison with the tolerance, escalation
+    Sub(r"(\bsize_t\s+num_allowed_threads\s*=\s*0\s*;)", r"\1 vx_round_begin();", None),
+    Sub(r"\bstates_\[([^\]]+)\]\s*<=\s*max_allowed_state\b", r"vx_within_tolerance(self, \1, max_allowed_state, &(*l))", None),
+    Sub(r"\bmax_allowed_state\s*=\s*runtime_state_(sleeping|stopping)\s*;", r"{ vx_escalate(); max_allowed_state = runtime_state_\1; }", None),
+    Sub(r"\bstates_\[([^\]]+)\]\s*" + CMP, r"atomic_load(vx_state_sel(self, \1)) \2", None),      # implicit conversion = load
+    Sub(r"\bstates_\[([^\]]+)\]", r"(*vx_state_sel(self, \1))", None),
+    Sub(r"\bpu_mtxs_\[([^\]]+)\]", r"(*vx_visit(self, \1))", None),
 ] + ATOMICS
 SEL_COMMON = ("lin_count == 0 && VALID(g_v_state) && g_reads >= 0 && g_reads <= 2 && states_size == self->n && "
               "(l->m == MTX_NONE || l->m == MTX_PU_V || l->m == MTX_PU_O)")
 SEL_L1 = """
-__CPROVER_assigns(num_thread, max_allowed_state, l->m, l->owns, g_v_pu_mtx, g_o_pu_mtx, g_v_joinable, g_v_state, g_o_state, g_last_read, g_reads, g_interfered, g_yields)
+__CPROVER_assigns(num_thread, max_allowed_state, l->m, l->owns, g_v_pu_mtx, g_o_pu_mtx, g_v_joinable, g_v_state, g_o_state, g_last_read, g_reads, g_interfered, g_yields, SEL_GHOSTS)
 __CPROVER_loop_invariant(%s && !l->owns && g_v_pu_mtx.held == 0 && g_o_pu_mtx.held == 0 && num_thread < self->n && g_yields >= 0 && g_yields <= 2)
 __CPROVER_loop_invariant(max_allowed_state == runtime_state_suspended || max_allowed_state == runtime_state_sleeping || max_allowed_state == runtime_state_stopping)
 """ % SEL_COMMON
 SEL_L2 = """
-__CPROVER_assigns(offset, num_allowed_threads, vx_yw1, num_thread, l->m, l->owns, g_v_pu_mtx, g_o_pu_mtx, g_v_joinable, g_v_state, g_o_state, g_last_read, g_reads, g_interfered)
+__CPROVER_assigns(offset, num_allowed_threads, vx_yw1, num_thread, l->m, l->owns, g_v_pu_mtx, g_o_pu_mtx, g_v_joinable, g_v_state, g_o_state, g_last_read, g_reads, g_interfered, SEL_GHOSTS)
 __CPROVER_loop_invariant(%s && !l->owns && g_v_pu_mtx.held == 0 && g_o_pu_mtx.held == 0 && num_thread < self->n)
 __CPROVER_loop_invariant(offset <= states_size && num_allowed_threads <= offset)
+__CPROVER_loop_invariant(g_in_round && !g_v_pending && (g_v_round_allowed ==> num_allowed_threads >= 1))
 """ % SEL_COMMON
 SEL_L3 = """
 __CPROVER_assigns(offset, l->m, l->owns, g_v_pu_mtx, g_o_pu_mtx, g_v_joinable, g_v_state, g_o_state, g_last_read, g_reads, g_interfered)
@@ -583,8 +588,9 @@ STATIC = list(globals().get("STATIC", [])) + list(LOOP_STATIC)
 # ---- C10 units reused (added by main after seeded change C19-5 was missed): a task handed to a pool with elasticity is put on the
 # ---- queue of the worker select_active_pu chose WHILE the PU mutex handed back by select_active_pu is still held -- that mutex is
 # ---- what suspend_processing_unit_internal needs for running -> pre_sleep, so the chosen worker cannot fall asleep in between.
-_c10 = {}
-exec(compile(open("/verif/specs/C10/spec.py").read(), "/verif/specs/C10/spec.py", "exec"), _c10)
+_c10 = {"UNITS": [], "VX_NO_REUSE": True}
+if not globals().get("VX_NO_REUSE"):     # reuse is never transitive: the other spec is loaded without ITS reuse blocks (no cycles)
+    exec(compile(open("/verif/specs/C10/spec.py").read(), "/verif/specs/C10/spec.py", "exec"), _c10)
 for _u in _c10["UNITS"]:
     # pool.create_thread / pool.create_work (added after seeded change C19-7 was missed): the submission gate of the pool --
     # work handed to a pool while some of its workers are suspended is accepted (postcondition 'refused => no worker threads')
